@@ -29,7 +29,8 @@ RULE = ("dense and sparse tensors (sparsity classes empty/one/some/all, stored o
         "double() / to_tensor() / full() of all seven classes; ktensor.to_tenmat over every ordered partition, every convention, ranks 1..3, "
         "against the model, full().to_tenmat, the Khatri-Rao form and the sum formula; random chains of 2..6 conversions from any of the seven "
         "classes (also dense / sparse operands with a history), ~4% with a missing method or malformed split; the tenmat constructor with "
-        "matrices of the prescribed and of other shapes with the same cell count, vectors, 3-way and empty arrays, defaults, bad modes; "
+        "matrices of the prescribed shape and of other shapes with the same cell count (must be refused), vectors (must be reshaped), "
+        "3-way and empty arrays, defaults, bad modes; "
         "non-trivial = accepted and more than one cell; distinct = distinct case hash")
 ASSUMPTIONS = ["np.nonzero scans in C order of the F-order ravel = first index fastest; linear-index assignment "
                "through tensor.__setitem__ has last-write-wins semantics"]
@@ -2101,11 +2102,12 @@ class KtensorTenmat(Family):
 class TenmatCtor(Family):
     """the tenmat constructor tenmat(data, rdims, cdims, tshape): what the object reports must be consistent - tshape,
     the split (a partition of the modes), and a matrix of shape (prod tshape[rdims], prod tshape[cdims]); matrices of
-    another shape with the same number of cells (transposed extents, a row, a column, another factorisation), vectors,
-    3-way arrays, empty arrays, missing arguments, modes out of range"""
+    another shape with the same number of cells (transposed extents, a row, a column, another factorisation) MUST be
+    refused, vectors MUST be reshaped to the prescribed shape; 3-way arrays, empty arrays, missing arguments, modes
+    out of range"""
     name = "tenmat_ctor"
-    theorems = ("C01_tenmat_ctor_reports_partial", "C01_tenmat_ctor_wf", "C01_tenmat_ctor_shape_counterexample",
-                "C01_tenmat_toTensor", "C01_double_tenmat")
+    theorems = ("C01_tenmat_ctor_reports", "C01_tenmat_ctor_wf", "C01_tenmat_ctor_rejects_shape",
+                "C01_tenmat_ctor_pinned_counterexample", "C01_tenmat_toTensor", "C01_double_tenmat")
 
     def gen(self, rng, tier):
         out = []
@@ -2160,9 +2162,10 @@ class TenmatCtor(Family):
             ds = c["dshape"]
             n = gen.numel(ds)
             tags = [f"d{len(ds)}", "tshape" if c["tshape"] is not None else "default"]
-            # specification: the matrix (a vector is one row), the tensor shape, the split, consistency
+            # specification: the tensor shape, the split, and the matrix - a matrix argument must have the shape
+            # (prod tshape[r], prod tshape[c]) the split prescribes, a vector argument is reshaped to it (first index fastest)
             spec_ok, why = True, ""
-            mshape = [1, ds[0]] if len(ds) == 1 else list(ds)
+            mshape = None if len(ds) == 1 else list(ds)
             ts = c["tshape"] if c["tshape"] is not None else mshape
             split = None
             if n == 0:
@@ -2178,9 +2181,12 @@ class TenmatCtor(Family):
                     spec_ok, why = False, "split"
                 else:
                     want = [gen.numel([ts[k] for k in split[0]]), gen.numel([ts[k] for k in split[1]])]
-                    if mshape != want:
+                    if mshape is None:
+                        mshape = want  # 1-d data takes the prescribed shape
+                    elif mshape != want:
                         spec_ok, why = False, f"matrix shape {mshape} contradicts the split, which prescribes {want}"
-            tags.append("consistent" if spec_ok else ("inconsistent-shape" if why.startswith("matrix shape") else "malformed"))
+            tags.append(("consistent" if len(ds) != 1 else "vector-reshaped") if spec_ok else
+                        ("inconsistent-shape" if why.startswith("matrix shape") else "malformed"))
             io, mo = "ok" in impl, "ok" in m
             bad = None
             if io != mo:
@@ -2188,7 +2194,7 @@ class TenmatCtor(Family):
             elif io and not deep_eq(impl["ok"]["state"], m["ok"]):
                 bad = "the constructed tenmat differs from the model (stored form / reports / double)"
             elif io and not spec_ok:
-                bad = f"the tenmat constructor accepts an inconsistent object: {why}"
+                bad = f"the tenmat constructor accepts what it has to refuse: {why}"
             elif spec_ok and not io:
                 bad = f"the tenmat constructor raised on consistent arguments: {impl.get('exc')} {impl.get('msg')}"
             elif io and n > 0:
